@@ -474,7 +474,7 @@ def run_plan(rep, plan, scenarios, opts, workers=None, canaries=()):
         break
     workers = workers or int(os.environ.get("QVERIF_WORKERS", "0")) or min(16, os.cpu_count() or 1)
     ctx = mp.get_context("fork")
-    limit = float(opts.get("scenario_wall_s", 240 if rep.tier == "quick" else 1500))
+    limit = float(opts.get("scenario_wall_s", 900 if rep.tier == "quick" else 2400))
     opts = dict(opts)
     opts.setdefault("deadline_s", limit * 0.8)
     opts.setdefault("validate_paths", 1 if rep.tier == "quick" else 3)  # per scenario: clean paths whose witness is replayed on the real code
